@@ -9,11 +9,12 @@ import (
 )
 
 // The hook handler of gcsutil is process-global; executions run in parallel. The handler finds the worker (and
-// through it the execution) that owns the calling goroutine by goroutine id. Goroutines that are not registered
-// workers pass through untouched.
+// through it the execution) that owns the calling goroutine by gkey() (the address of the goroutine descriptor; the
+// goroutine id on architectures without the two-line assembly stub). Goroutines that are not registered workers
+// pass through untouched.
 
 var (
-	registry    sync.Map // goroutine id (uint64) -> *worker
+	registry    sync.Map // gkey() of the worker goroutine (uint64) -> *worker
 	hookHits    atomic.Int64
 	installOnce sync.Mutex
 	installed   bool
@@ -41,7 +42,7 @@ func Uninstall() {
 }
 
 func handler(point, key string) {
-	v, ok := registry.Load(goid())
+	v, ok := registry.Load(gkey())
 	if !ok {
 		return
 	}
